@@ -599,6 +599,74 @@ func replicaApply(c *common.Ctx, r *common.Rand, idx int) error {
 		verify(c, cp, "db", all, "C05:replica:apply", rep, false, false)
 	}
 	os.RemoveAll(snapDir)
+	// phase 3: the replica runs on its own for a while (a former primary with unreplicated transactions, ahead of
+	// or beside the primary's history), rejoins and is resnapshotted - with its own newer files still in the log
+	if len(h.Ref.Pages) == 0 {
+		return nil
+	}
+	rn.Stop()
+	solo := cluster.New(filepath.Join(dir, "clu"), 2*time.Second)
+	sn, err := solo.Start("r", true)
+	if err != nil {
+		return err
+	}
+	if solo.WaitPrimary(5*time.Second) == nil {
+		sn.Stop()
+		return fmt.Errorf("the replica on its own did not become primary")
+	}
+	rp := sn.Store.DB("db").Pos()
+	hr := hist.NewOn(c, r.Fork(), hist.Config{PageSize: ps, AllowWAL: wal}, sn.Store, sn.Exits, "db", h.Ref.Clone(), uint64(rp.TXID), h.WALMode)
+	own := 2 + r.Intn(3)
+	for done, tries := 0, 0; tries < 300 && done < own; tries++ {
+		st := hr.GenStep()
+		if st.Op != "rtx" && st.Op != "wtx" {
+			continue
+		}
+		if st.Op == "rtx" {
+			st.Outcome, st.ToWAL = 0, false
+		}
+		ob := hr.Exec(st)
+		if ob.Err != "" || ob.Panic != "" {
+			sn.Stop()
+			return fmt.Errorf("solo step %s: %s%s", st.Op, ob.Err, ob.Panic)
+		}
+		if ob.Captured {
+			done++
+			q := sn.Store.DB("db").Pos()
+			images[[2]uint64{uint64(q.TXID), uint64(q.PostApplyChecksum)}] = hr.Ref.Clone()
+		}
+	}
+	sn.Stop()
+	if r.Bool() { // the primary moves on too (fork), or stays behind (replica strictly ahead)
+		if err := commit(1); err != nil {
+			return err
+		}
+	}
+	if len(h.Ref.Pages) == 0 {
+		return nil
+	}
+	snapDir = filepath.Join(dir, "snaps-c")
+	rc.arm(snapDir)
+	if rn, err = clu.Start("r", false); err != nil {
+		return err
+	}
+	pp = p.Store.DB("db").Pos()
+	if !cluster.WaitPos(rn, "db", uint64(pp.TXID), uint64(pp.PostApplyChecksum), 10*time.Second) {
+		return fmt.Errorf("replica did not catch up (3)")
+	}
+	time.Sleep(20 * time.Millisecond)
+	points = rc.disarm()
+	all = nil
+	for k, v := range images {
+		all = append(all, posImg{k[0], k[1], v})
+	}
+	rep["phase"] = "resnapshot-of-a-diverged-replica"
+	c.Distinct(fmt.Sprintf("replica:resnapshot:%v", wal))
+	c.Count("crash_points_replica_resnapshot", len(points))
+	for _, cp := range points {
+		verify(c, cp, "db", all, "C05:replica:resnapshot", rep, false, false)
+	}
+	os.RemoveAll(snapDir)
 	return nil
 }
 
